@@ -992,7 +992,7 @@ class Patron(object):
                 secured = False # non tls socket connection
                 defaultPort = 80
             hostname, port = httping.normalizeHostPort(hostname, port=port, defaultPort=defaultPort)
-            path = splits.path
+            path = splits.path or u'/'  # no path in the location means the root RFC 7230 5.3.1
             query = splits.query
             fragment = splits.fragment
 
